@@ -80,12 +80,51 @@ def parseTV (s : String) : Option C12.TagValue :=
   | 'I' :: r => (String.ofList r).toInt?.map fun i => .int (BitVec.ofInt 64 i)
   | _ => none
 
+def parseFams (s : String) : Option (List FamSpec) :=
+  (s.splitOn "/").mapM fun fam =>
+    match fam.splitOn ":" with
+    | [n, ts] => some { name := toBytes n, tags := if ts == "" then [] else (ts.splitOn ",").map toBytes }
+    | _ => none
+
+def parseWrite (s : String) : Option (List (List C12.TagValue)) :=
+  (s.splitOn "/").mapM fun fam => if fam == "." then some [] else (fam.splitOn ",").mapM parseTV
+
+def showTV : C12.TagValue → String
+  | .null => "N"
+  | .str s => "S" ++ hexOrDash s
+  | .bin s => "B" ++ hexOrDash s
+  | .int v => "I" ++ toString v.toInt
+
+def showNav : Option (List C12.TagValue × Nat) → String
+  | none => "ERR -"
+  | some (evs, s) => s!"{s} " ++ (if evs.isEmpty then "-" else ",".intercalate (evs.map showTV))
+
+def handleSpec : List String → String
+  | [_, n, name, schema, entity, sk, spec, sw, rw] =>
+    match n.toNat?, parseFams schema, parseWrite sw, parseWrite rw with
+    | some n, some schema, some sw, some rw =>
+      let entity := (entity.splitOn ",").map toBytes
+      let sk := if sk == "-" then none else some ((sk.splitOn ",").map toBytes)
+      let subj := toBytes name
+      let spec? : Option (Option (List FamSpec)) :=
+        if spec == "-" then some none else if spec == "." then some (some []) else (parseFams spec).map some
+      match spec? with
+      | none => "bad-op"
+      | some spec =>
+        let a := match spec with
+          | none => schemaNavigate xxhash64 schema entity sk subj sw n
+          | some sp => specNavigate xxhash64 schema sp entity sk subj sw n
+        showNav a ++ " " ++ showNav (schemaNavigate xxhash64 schema entity sk subj rw n)
+    | _, _, _, _ => "bad-op"
+  | _ => "bad-op"
+
 def showShard : Option Nat → String
   | some s => toString s
   | none => "ERR"
 
 def handle (line : String) : String :=
   match words line with
+  | "spec" :: rest => handleSpec rest
   | "shard" :: n :: key :: [] =>
     match n.toNat?, bytesOfHex key with
     | some n, some key =>
